@@ -1,3 +1,62 @@
-import Mqtt5V.Basic
+import Mqtt5V.Proofs.Sender
+/-! # C09 — async_disconnect: DISCONNECT first and alone (sender core)
+
+`async_disconnect` sends its DISCONNECT with the `terminal` flag.  In the model of `async_sender::do_write`:
+when the stream is free and a terminal request is queued, the batch handed to the stream is exactly that
+request — alone and ahead of every other queued packet, whatever the queue holds and whatever the quota is;
+when a write is in progress nothing is written until it completes, and then the terminal request is next. -/
 namespace Mqtt5V.Props.C09
+open Mqtt5V.Model.Sender Mqtt5V.Proofs.Sender
+
+/-- **Terminal request alone and first**: stream free + a terminal request in the queue ⇒ the write is exactly `[it]`
+(the first terminal one), it leaves the queue, everything else stays queued in order. -/
+theorem terminal_alone_and_first (s : S) (hfree : s.inflight = none) (t : SReq)
+    (ht : s.queue.find? (·.terminal) = some t) :
+    (doWrite s).2 = [.wr [t.id]] ∧ (doWrite s).1.inflight = some [t] ∧ (doWrite s).1.queue = s.queue.erase t := by
+  have hne : s.queue ≠ [] := by intro h; simp [h] at ht
+  have hc : (s.inflight.isSome || s.queue.isEmpty) = false := by
+    simp [hfree]; exact hne
+  unfold doWrite
+  simp [hc, ht]
+
+/-- while a write is in progress `do_write` writes nothing: the DISCONNECT waits for the write already in progress -/
+theorem nothing_written_while_in_progress (s : S) (b : List SReq) (h : s.inflight = some b) : doWrite s = (s, []) := by
+  unfold doWrite; simp [h]
+
+/-- … and once that write has finished successfully the next thing written is the terminal request alone -/
+theorem terminal_is_next_after_write (s : S) (b : List SReq) (h : s.inflight = some b) (t : SReq)
+    (ht : s.queue.find? (·.terminal) = some t) :
+    ∃ fin, (step s (.wdone .ok)).2 = fin ++ [.wr [t.id]] ∧ (∀ e ∈ fin, ∃ id, e = .done id .ok) := by
+  simp only [step, h]
+  have := terminal_alone_and_first
+    { s with inflight := none, unanswered := s.unanswered ++ b.filter (·.awaits) } rfl t ht
+  refine ⟨_, by rw [this.1], ?_⟩
+  intro e he
+  simp at he
+  obtain ⟨r, _, rfl⟩ := he
+  exact ⟨r.id, rfl⟩
+
+/-- a terminal request never shares a batch: every batch `do_write` forms either is a single terminal request or
+contains no terminal request at all -/
+theorem batch_terminal_exclusive (s : S) (b : List SReq) (h : (doWrite s).1.inflight = some b) (hs : s.inflight = none) :
+    (∃ t, b = [t] ∧ t.terminal = true) ∨ (∀ r ∈ b, r.terminal = false) := by
+  by_cases hc : (s.inflight.isSome || s.queue.isEmpty) = true
+  · have hd : doWrite s = (s, []) := by unfold doWrite; simp [hc]
+    rw [hd, hs] at h; cases h
+  · cases hf : s.queue.find? (·.terminal) with
+    | some t =>
+      have := terminal_alone_and_first s hs t hf
+      rw [this.2.1] at h; cases h
+      exact Or.inl ⟨t, rfl, by simpa using List.find?_some hf⟩
+    | none =>
+      right
+      have hnt : ∀ r ∈ s.queue, r.terminal = false := by
+        intro r hr; have := List.find?_eq_none.mp hf r hr; simpa using this
+      intro r hr
+      have hsub : ∀ x ∈ (doWrite s).1.inflight.getD [], x ∈ s.inflight.getD [] ∨ x ∈ s.queue := doWrite_inflight_sub s
+      have := hsub r (by rw [h]; exact hr)
+      rw [hs] at this
+      simp at this
+      exact hnt r this
+
 end Mqtt5V.Props.C09
